@@ -226,6 +226,8 @@ func runC03(c *Ctx) {
 	c.Rule("LABEL-CONSISTENT", "every labelled parameter of a helper receives one label at all of its call sites (sibling call sites agree)", 20)
 	c.Rule("CAN-REPORT", "an annotation call is reachable from every registered breaking handler", 55)
 	c.Rule("TABLE-TOTAL", "compatibility tables cover every protoreflect.Kind; enum switches of the handlers cover their enum or have a default", 4)
+	c.Rule("GROUPS-DOCUMENTED", "compatibility groups never merge kinds that the protobuf documentation lists as incompatible (a merged pair would go unreported)", 2)
+	c.Rule("EXEMPTION-WEAKENS", "a deletion is excused only by the reservation the category demands (all aliases' names reserved)", 1)
 
 	t := extractCheckTables(p)
 	for _, e := range t.Errors {
@@ -490,6 +492,25 @@ func runC03(c *Ctx) {
 		c.Ob("CAN-REPORT", "rule "+b.ID, hb.Pos, can, true, "an AddAnnotation/AddProtosourceAnnotation call is reachable from the handler of %s: %v", b.ID, can)
 	}
 
+	// every implementation of ResponseWriter.AddProtosourceAnnotation really adds an annotation on every path
+	for _, fr := range p.FuncsOf(pkU) {
+		if fr.Decl.Name.Name != "AddProtosourceAnnotation" || fr.Decl.Recv == nil {
+			continue
+		}
+		var adds []ast.Node
+		ast.Inspect(fr.Decl.Body, func(n ast.Node) bool {
+			if call, ok := n.(*ast.CallExpr); ok {
+				if sel, ok := call.Fun.(*ast.SelectorExpr); ok && sel.Sel.Name == "AddAnnotation" {
+					adds = append(adds, call)
+				}
+			}
+			return true
+		})
+		g := p.CFGOf(fr.Decl.Body, fr.Info())
+		skipped := len(adds) == 0 || g.EndReachableAvoiding(adds)
+		c.Ob("CAN-REPORT", fr.ID()+"/always-adds", fr.Decl.Pos(), !skipped, true, "every path through AddProtosourceAnnotation reaches the underlying AddAnnotation (no annotation is silently dropped): %v", !skipped)
+	}
+
 	// (6) tables
 	for _, name := range []string{"fieldKindToWireCompatibilityGroup", "fieldKindToWireJSONCompatibilityGroup"} {
 		cl := pkgVarLiteral(pkH, name)
@@ -500,6 +521,8 @@ func runC03(c *Ctx) {
 		missing, total, ok := mapLiteralMissingKeys(pkH.TypesInfo, cl)
 		c.Ob("TABLE-TOTAL", name, cl.Pos(), ok && len(missing) == 0, true, "%d distinct protoreflect.Kind values, missing keys: %v", total, missing)
 	}
+	c04GroupsDocumented(c)
+	c04AllNames(c)
 	for _, es := range findEnumSwitches(p, pkH) {
 		// a switch with a default is total by construction; one without is partial by design (only the listed
 		// kinds need extra work) — counted, never failed: no rule can tell a forgotten case from an intended omission
